@@ -36,6 +36,7 @@ CUT_FMTSPEC = True
 TOKENS = True
 CUT_FLOOR = True
 VSETS = False
+KEEP_LOGGING_IN = ()  # file name suffixes (e.g. "scripts/pretext_to_asm.py") whose logging calls are NOT cut
 
 LOG = []  # (file, line, kind)
 TOK = {}  # token text -> symbolic value (reset per path by the harness)
@@ -189,6 +190,7 @@ class Cut(ast.NodeTransformer):
         v = node.value
         if (
             CUT_LOGGING
+            and not any(self.fn.endswith(k) for k in KEEP_LOGGING_IN)
             and isinstance(v, ast.Call)
             and isinstance(v.func, ast.Attribute)
             and isinstance(v.func.value, ast.Name)
